@@ -226,6 +226,10 @@ impl Trace {
             };
             call(c)
         };
+        if out.out == "NA" {
+            // the combination is not expressible with the static types of the API: nothing was called
+            return out.out;
+        }
         let (casts, lks) = hooks_json(&out.hooks);
         let mut kv = vec![
             ("ev", jstr(if two_d { "Q2" } else { "Q1" })),
